@@ -2,6 +2,7 @@ package harness
 
 import (
 	"fmt"
+	"os"
 	"strings"
 	"testing"
 
@@ -98,6 +99,8 @@ var directedClasses = []directedClass{
 	{"null-instance", []string{"yaml", "yaml-event", "yaml-parse", "yaml-conv"}},
 	{"zero-default-flag", []string{"flag-bpm-0", "flag-velocity-empty", "flag-meter-empty", "flag-key-empty", "flag-all"}},
 	{"unknown-conversion-step", []string{"step-only", "step-first", "step-middle", "step-last", "step-twice"}},
+	{"impossible-track-count", []string{"track-0", "track-negative", "track-not-a-number", "track-beyond-header"}},
+	{"unwritable-output", []string{"out-text-parse", "out-text-conv-degree", "out-text-conv-syllable", "out-write", "out-write-event", "out-write-parse", "out-write-conv", "out-info-attr-list", "out-info-attr-describe", "out-info-chord-list", "out-info-chord-describe", "out-info-key-list", "out-info-key-describe", "out-info-key-conv", "out-gen-attr"}},
 	{"inconsistent-dictionary", []string{"dict-write", "dict-write-event", "dict-write-parse", "dict-write-conv", "dict-chord-describe", "dict-attr-describe"}},
 }
 
@@ -326,6 +329,82 @@ func checkC09Directed(c C09Directed) *Violation {
 		key := pickFrom(seed+at, theory.ListedKeys)
 		res := Run{Argv: []string{"info", "key", "conv", "--key", key, "-c", chain}}.Exec()
 		return mustFail(res, fmt.Sprintf("unknown conversion step: `crd info key conv --key %s -c %q`", key, chain))
+	case "impossible-track-count":
+		// a piece cannot be spread over zero, a negative number of, or more tracks than a header can declare
+		val := map[string][]string{
+			"track-0":             {"0"},
+			"track-negative":      {"-1", "-5", "-2147483648"},
+			"track-not-a-number":  {"abc", "", "1.5", "two", "0x"},
+			"track-beyond-header": {"65536", "65537", "100000", "131072"},
+		}[c.Channel]
+		sub := [][]string{{"write"}, {"write", "event"}}[seed%2]
+		argv := append(append([]string{}, sub...), "--track", pickFrom(seed/2, val))
+		res := Run{Argv: argv, Stdin: doc.YAML()}.Exec()
+		if v := mustFail(res, fmt.Sprintf("impossible track count: `crd %s`", strings.Join(argv, " "))); v != nil {
+			if v.Sig == "nonsense-accepted" {
+				if _, err := smfread.ReadSMF(res.Stdout); err == nil {
+					v.Sig = "nonsense-reached-midi"
+				}
+			}
+			return v
+		}
+		return nil
+	case "unwritable-output":
+		// injected fault: the -o file opens but takes no data (/dev/full: every write fails with ENOSPC). A command
+		// that has a result and cannot deliver it has failed, and must say so like for any other failure.
+		if _, err := os.Stat("/dev/full"); err != nil {
+			return nil
+		}
+		var argv []string
+		stdin := ""
+		switch strings.TrimPrefix(c.Channel, "out-") {
+		case "text-parse":
+			argv, stdin = []string{"text", "parse"}, Render(DegreeSentence(items), canonStyle{})
+		case "text-conv-degree":
+			argv, stdin = []string{"text", "conv", "degree"}, Render(DegreeSentence(items), canonStyle{})
+		case "text-conv-syllable":
+			ss, _ := SyllableSentence(items, "C")
+			argv, stdin = []string{"text", "conv", "syllable"}, Render(ss, canonStyle{})
+		case "write":
+			argv, stdin = []string{"write"}, ProgressionDoc(items).YAML()
+		case "write-event":
+			argv, stdin = []string{"write", "event"}, ProgressionDoc(items).YAML()
+		case "write-parse":
+			argv, stdin = []string{"write", "parse"}, ProgressionDoc(items).YAML()
+		case "write-conv":
+			argv, stdin = []string{"write", "conv", "-c", "cmt"}, ProgressionDoc(items).YAML()
+		case "info-attr-list":
+			argv = []string{"info", "attr", "list"}
+		case "info-attr-describe":
+			argv = []string{"info", "attr", "describe", "-t", pickFrom(seed, []string{"Major3", "Perfect5", "Minor7", "Augmented4"}), "-r", pickFrom(at, []string{"C", "F#", "Bb"})}
+		case "info-chord-list":
+			argv = []string{"info", "chord", "list"}
+		case "info-chord-describe":
+			argv = []string{"info", "chord", "describe", "-t", pickFrom(seed, []string{"C", "Dm7", "G_7", "Bbmaj7"})}
+		case "info-key-list":
+			argv = []string{"info", "key", "list"}
+		case "info-key-describe":
+			argv = []string{"info", "key", "describe", "--key", pickFrom(seed, theory.ListedKeys)}
+		case "info-key-conv":
+			argv = []string{"info", "key", "conv", "--key", pickFrom(seed, theory.ListedKeys), "-c", pickFrom(at, []string{"d", "ps", "r", "sdp"})}
+		case "gen-attr":
+			argv = []string{"gen", "attr", "-d", fmt.Sprint(1 + seed%20)}
+		}
+		plain := Run{Argv: argv, Stdin: stdin}.Exec()
+		if v := cleanOutcome(plain); v != nil {
+			return v
+		}
+		if plain.Exit != 0 || len(plain.Stdout) == 0 {
+			return vio("harness", "`crd %s` has no result to lose (exit %d): %s", strings.Join(argv, " "), plain.Exit, firstLines(plain.Stderr, 2))
+		}
+		full := Run{Argv: append(append([]string{}, argv...), "-o", "/dev/full"), Stdin: stdin}.Exec()
+		if v := mustFail(full, fmt.Sprintf("`crd %s -o /dev/full` (a result of %d bytes that cannot be written)", strings.Join(argv, " "), len(plain.Stdout))); v != nil {
+			if v.Sig == "nonsense-accepted" {
+				v.Sig = "lost-output-reported-as-success"
+			}
+			return v
+		}
+		return nil
 	case "zero-default-flag":
 		// a flag set to its empty / zero default means "no override": same bytes as without the flag,
 		// and in particular never a tempo of 0
